@@ -6,7 +6,7 @@ from mkprops import write
 IMP = """From Coq Require Import List Arith Bool NArith.
 From FFSM2 Require Import Model.TaskList Model.BitArray Model.BitStream Model.Plan Model.Ancestors Model.Machine
   Proofs.BitArrayProofs Proofs.TaskListProofs Proofs.TaskListRun Proofs.PlanProofs Proofs.MachineFrame Proofs.MachinePlan Proofs.MachineLife Proofs.GuardProofs Proofs.CycleProofs Proofs.PlanStep
-  Proofs.SerialProofs Proofs.LogProofs Proofs.MachineTop Model.Multi Generated.InitFacts Proofs.ConstructProofs Proofs.LifeMonitor Proofs.ActivationRounds Proofs.IndexSafety Proofs.FeatureProofs Model.Script Proofs.Contract Proofs.Histories Proofs.StatusBits Proofs.Worlds.
+  Proofs.SerialProofs Proofs.LogProofs Proofs.MachineTop Model.Multi Generated.InitFacts Proofs.ConstructProofs Proofs.LifeMonitor Proofs.ActivationRounds Proofs.IndexSafety Proofs.FeatureProofs Model.Script Proofs.Contract Proofs.Histories Proofs.StatusBits Proofs.Worlds Model.Cxx Generated.LeafCode Proofs.LeafTactics Proofs.LeafConsts.
 Import ListNotations."""
 
 VOC = ("Vocabulary: Ready cfg s a = the machine is at a point where requests are processed (or between API calls) with state a < n active, "
@@ -265,6 +265,13 @@ SPECS["C18"][1].extend([
    ("C18_report_bit_indices_in_range", "reachable_status_bits_in_range", "... so every succeed/fail/clear/plan-step access with a state id below n is inside both arrays"),
    ("C18_invariant_with_report_bits_is_closed", "PIw_ok", ""),
 ])
+
+_TIE = ("the tie to the source, by proof: the static constants of BitArrayT<N> as tools/leafcode.py translates them from clang's typed AST of /repo's current bit_array.hpp / utility.hpp on every run "
+        "(Generated/LeafCode.v; contain() included), evaluated in the interpreter of Model/Cxx.v (C++ integer semantics), are CAPACITY = N and UNIT_COUNT = ceil(N / 8) for every N up to 255 - "
+        "the size the model gives the report-bit arrays and the serialized form's byte count rest on")
+for _pid in ("C08", "C09", "C12"):
+    SPECS[_pid][1].append(("%s_source_constants_are_the_model" % _pid, "src_BitArray_consts", _TIE))
+    SPECS[_pid][1].append(("%s_source_contain_is_the_model" % _pid, "src_contain_u8", "contain(x, to) of utility.hpp, as translated from the current source, is ceil(x / to) for all one-byte operands (no wrap-around in the intermediate sum)"))
 
 _EPS = "over whole histories: every update(), react(), immediateChangeTo() and immediateChangeWith() of every in-contract history processes requests exactly once, from a Ready state reached by callbacks that applied no transition - so every statement of this file made for process_request on a Ready state holds for every processing step of every history"
 for _pid in ("C02", "C03", "C04", "C11"):
